@@ -23,6 +23,9 @@ ZERO = ([chr(c) for c in range(0x0300, 0x0340)]
 NARROW_UNI = ([chr(c) for c in range(0x00C0, 0x0180)]
               + [chr(c) for c in range(0x0391, 0x03CA) if c != 0x03A2]
               + [chr(c) for c in range(0x0410, 0x0450)])
+# C0 / DEL / C1 control characters that Text keeps (zero cells in the width table); not ESC or CSI/OSC/DCS
+# introducers (they would start sequences in the terminal models), not the line separators str.splitlines knows
+KEPT_CONTROLS = ["\x01", "\x02", "\x0e", "\x1a", "\x1f", "\x7f", "\x80", "\x9f"]
 STRIPPED_CONTROLS = "\b\v\f\r"          # what Text strips (rich.control.strip_control_codes)
 SEPARATOR_ODDITIES = [" ", " ", "\x85", "\x1c", "\x1d", "\x1e"]
 # glyphs that frames and guides draw: excluded from unique alphabets
@@ -76,7 +79,7 @@ def classes():
     if _TABLE_CLASSES is None:
         _TABLE_CLASSES = _table_classes()
     return {"ascii": ASCII_LETTERS, "punct": ASCII_PUNCT, "wide": WIDE, "zero": ZERO,
-            "narrow": NARROW_UNI, "edge": _TABLE_CLASSES[0], "sporadic": _TABLE_CLASSES[1]}
+            "narrow": NARROW_UNI, "edge": _TABLE_CLASSES[0], "sporadic": _TABLE_CLASSES[1], "control": KEPT_CONTROLS}
 
 
 _TABLE_CLASSES = None
@@ -90,7 +93,10 @@ def sparse_odd_string(rng, min_len=65, max_len=300):
     out = [rng.choice(ASCII_LETTERS + "    .,-") for _ in range(n)]
     for _ in range(rng.randint(1, 3)):
         r = rng.random()
-        pool = cl["edge"] if r < 0.35 else [c for c in cl["sporadic"] if (cellref.char_width(c) == 2) == (r < 0.75)]
+        if r < 0.12:
+            pool = cl["control"]
+        else:
+            pool = cl["edge"] if r < 0.35 else [c for c in cl["sporadic"] if (cellref.char_width(c) == 2) == (r < 0.75)]
         out[rng.randrange(n)] = rng.choice(pool)
     return "".join(out)
 
@@ -110,12 +116,16 @@ def pick_weights(rng, allow_zero=True, allow_wide=True, allow_punct=True):
         w = {"ascii": 4, "zero": 3, "wide": 2}
     elif mode < 0.58:
         w = {"ascii": 6, "edge": 2, "sporadic": 2}
+    elif mode < 0.62:
+        w = {"ascii": 12, "control": 1}
     if not allow_zero:
         drop_zero(w)
     if not allow_wide:
         w.pop("wide", None)
         w.pop("edge", None)
         w.pop("sporadic", None)
+        if not w:
+            w["ascii"] = 1
     if not allow_punct:
         w.pop("punct", None)
     return w
@@ -123,7 +133,7 @@ def pick_weights(rng, allow_zero=True, allow_wide=True, allow_punct=True):
 
 def drop_zero(w):
     """Remove every class that contains zero-width characters from a weight mixture."""
-    for name in ("zero", "edge", "sporadic"):
+    for name in ("zero", "edge", "sporadic", "control"):
         w.pop(name, None)
     if not w:
         w["ascii"] = 1
